@@ -209,7 +209,8 @@ Proof.
     + destruct (r_as r) as [|a l]; [constructor; [reflexivity|constructor]|].
       apply Forall_forall. intros s Hs. apply in_map_iff in Hs. destruct Hs as [i [<- _]]. destruct (implements _ i); [reflexivity|exact I].
     + apply Forall_forall. intros s Hs. apply in_map_iff in Hs. destruct Hs as [[i t] [<- _]]. reflexivity.
-  - apply Forall_forall. intros s Hs. apply in_map_iff in Hs. destruct Hs as [[i f] [<- _]]. reflexivity.
+  - apply Forall_forall. intros s Hs. apply in_map_iff in Hs. destruct Hs as [[i f] [<- _]].
+    destruct (negb (f_name f =? 0) && negb (f_group f =? 0)); [exact I|reflexivity].
 Qed.
 
 Lemma run_steps_ok r steps : reg_inst_ok r -> Forall (fun s => match s with inl d => ds_reg d = r | inr _ => True end) steps ->
